@@ -1,6 +1,7 @@
 """C14 - the chain is a best-scoring admissible order-respecting selection of segments."""
 import math
 
+from vf import core
 from vf import direct, e2e, gen, hooks, models, pipeline
 from vf.core import Shard, rng_for
 
@@ -12,7 +13,7 @@ RULE = ('(a) synthetic segment sets (1-8 two-pair segments on coordinate grids o
         'seed lists (real segments, n <= 10 for the optimality clause) and during end-to-end runs. Oracle: result is a '
         'sub-list by identity, each once, non-empty ones first in non-decreasing diagonal key, all empty ones passed '
         'through; total finite; no consecutive pair overlaps by more than half the shorter one on either axis (from '
-        'coordinates); total equals the maximum over ALL 2^n subsets in diagonal order; every getScore is <= 0, is 0 '
+        'coordinates); total equals the maximum over ALL 2^n subsets in diagonal order (n <= 8 synthetic / 10 real; for larger n, up to 60, an independent O(n^2) model that is cross-validated against the subset enumeration on every small case of the same run; crowded sets of 10-31 segments are generated for this); every getScore is <= 0, is 0 '
         'for a contiguous join, and is -inf exactly when the coordinate overlap rule says so. Non-trivial = chain call '
         'with >= 2 non-empty input segments; distinct by content hash of the geometry.')
 ASSUMPTIONS = ['inputs in which two distinct segments have equal diagonal keys are skipped for the optimality clause '
@@ -20,7 +21,8 @@ ASSUMPTIONS = ['inputs in which two distinct segments have equal diagonal keys a
                'segmentJoinMultiplier >= 0']
 MINIMUMS = {'synthetic-calls': {'quick': 20000, 'thorough': 400000}, 'real-calls': {'quick': 5000, 'thorough': 80000},
             'optimality-checked': {'quick': 15000, 'thorough': 300000}, 'real-reverse-chain-calls': {'quick': 500, 'thorough': 8000},
-            'getScore-calls': {'quick': 50000, 'thorough': 500000}}
+            'getScore-calls': {'quick': 50000, 'thorough': 500000},
+            'optimality-checked-by-dp-model': {'quick': 1000, 'thorough': 15000}, 'dp-model-agrees-with-subset-enumeration': {'quick': 15000, 'thorough': 300000}}
 
 
 def plan(tier, seed):
@@ -120,18 +122,29 @@ def judge_chain(chainer, segments, result, sh, case, tag, optimal_max=8):
     if len(set(allkeys)) != len(allkeys):
         sh.count('tied-keys-skipped-for-optimality')
         return
-    if len(ne_in) > optimal_max:
-        sh.count('too-large-for-subset-enumeration')
-        return
     order = sorted(ne_in, key=lambda s: models.diag_key(models.seg_geom(s)))
-    best = models.best_subset_total(order, lambda s: s.segmentScore, scorer.getScore)
-    sh.count('optimality-checked')
+    dp = models.best_chain_dp(order, lambda s: s.segmentScore, scorer.getScore) if len(ne_in) <= 60 else None
+    if len(ne_in) > optimal_max:
+        if dp is None:
+            sh.count('too-large-for-any-optimality-model')
+            return
+        sh.count('optimality-checked-by-dp-model')
+        best = dp
+    else:
+        best = models.best_subset_total(order, lambda s: s.segmentScore, scorer.getScore)
+        sh.count('optimality-checked')
+        if abs(best - dp) > 1e-6 * max(1.0, abs(best)):
+            sh.inconclusive.append('the DP reference model disagrees with subset enumeration (%s vs %s)' % (dp, best))
+        else:
+            sh.count('dp-model-agrees-with-subset-enumeration')
     if abs(best - tot) > 1e-6 * max(1.0, abs(best)):
         sh.violation('chain-suboptimal', 'chain total %s but the best order-respecting subset scores %s (n=%d, sj=%s, ss=%s)'
                      % (tot, best, len(ne_in), scorer.segmentJoinMultiplier, scorer.sequentialityScore), case())
 
 
 def syn_case(rng):
+    if rng.random() < 0.12:
+        return crowded_case(rng)
     n = rng.randint(1, 8)
     rev = rng.random() < 0.5
     grid = rng.choice([1, 100, 1000])
@@ -146,6 +159,30 @@ def syn_case(rng):
             'ss': rng.choice([0, 1]), 'perm': rng.randint(0, 10 ** 6)}
 
 
+def crowded_case(rng):
+    """Two (or three) contiguous strong segments separated in diagonal order by many weak off-diagonal ones."""
+    grid = rng.choice([100, 1000])
+    rev = rng.random() < 0.5
+    segs = []
+    L = rng.randint(8, 12) * grid
+    r0 = rng.randint(5, 20) * grid
+    nstrong = rng.randint(2, 3)
+    gap = rng.randint(0, 2) * grid
+    span_start = r0
+    for k in range(nstrong):
+        segs.append([[r0, r0 + L, r0, r0 + L], rng.choice([8000, 9000])])
+        r0 += L + gap
+    span_end = r0
+    for _ in range(rng.randint(3, 28)):
+        # weak segments whose diagonal key falls between the strong ones but which lie far off the diagonal
+        mid = rng.randint(span_start, span_end)
+        off = rng.choice([-1, 1]) * rng.randint(30, 80) * grid
+        l2 = rng.randint(1, 3) * grid
+        segs.append([[mid + off, mid + off + l2, max(0, mid - off), max(0, mid - off) + l2], rng.choice([1000, 1200])])
+    return {'kind': 'syn', 'segs': segs, 'rev': rev, 'empties': rng.randint(0, 1), 'sj': rng.choice([0.5, 1.0, 2.0]),
+            'ss': rng.choice([0, 1]), 'perm': rng.randint(0, 10 ** 6), 'crowded': True}
+
+
 def judge_syn(case, sh):
     import random
     from src.alignment.segment_chainer import SegmentChainer, SequentialityScorer
@@ -158,6 +195,10 @@ def judge_syn(case, sh):
     with ScoreWatch(sh, lambda: case).install():
         res = chainer.chain(allsegs)
         judge_chain(chainer, allsegs, res, sh, lambda: case, 'synthetic')
+        if case.get('crowded'):
+            sh.count('crowded-cases')
+            if len(segs) > 9:
+                sh.count('crowded-cases-with-10+-segments')
     if len(sh.samples) < 2 and len(segs) >= 4 and len([s for s in res if not s.empty]) >= 3:
         sh.sample({'kind': 'synthetic', 'segments [r0,r1,q0,q1],score': case['segs'], 'reverse': case['rev'],
                    'sj': case['sj'], 'ss': case['ss'],
@@ -217,7 +258,7 @@ def run_shard(spec):
             case = gen.pipeline_case(rng, ['noisy', 'indel', 'indel', 'chimeric', 'partial'], param_prob=0.7,
                                      param_keys=('sj', 'ss', 'd', 'ms', 'bs', 'p'))
             case['kind'] = 'e2e'
-            judge_e2e(case, spec['workdir'], sh)
+            core.isolated(judge_e2e, sh, case, spec['workdir'])
     if hooks.MONITOR_ERRORS:
         sh.inconclusive.append('monitor errors: %s' % hooks.MONITOR_ERRORS[:3])
     return sh
